@@ -9,40 +9,120 @@ from . import vunit
 
 VERIF = vunit.VERIF
 RCRATE = os.path.join(VERIF, "replay")
-RTARGET = os.path.join(vunit.BUILD, "replay-target")
+# The replay crate depends on the crates of the repository UNDER CHECK by path, so its Cargo.toml is generated:
+# replay/Cargo.toml.in (with @REPO@) + replay/src/ are copied to RSRC, built into RTARGET (both outside /repo and
+# /verif/replay; build/ is git-ignored, scratch runs live under /tmp/verif-target-<hash>-replay/).
+if vunit.REPO == "/repo":
+    RSRC = os.path.join(vunit.BUILD, "replay-src")
+    RTARGET = os.path.join(vunit.BUILD, "replay-target")
+else:
+    RSRC = os.path.join(vunit.TARGET + "-replay", "replay-src")
+    RTARGET = os.path.join(vunit.TARGET + "-replay", "target")
+MAIN_RTARGET = os.path.join(vunit.BUILD, "replay-target")
+JOBS = os.environ.get("VERIF_REPLAY_JOBS", "4")
+_built = {}
+
+
+def prepare():
+    """copy the crate to RSRC with @REPO@ substituted (same scheme as vf/kani.py prepare())"""
+    os.makedirs(RSRC, exist_ok=True)
+    for root, dirs, files in os.walk(RCRATE):
+        dirs[:] = [d for d in dirs if d != "target"]
+        rel = os.path.relpath(root, RCRATE)
+        os.makedirs(os.path.join(RSRC, rel), exist_ok=True)
+        for fn in files:
+            if fn in ("Cargo.lock", "Cargo.toml"):
+                continue
+            with open(os.path.join(root, fn)) as f:
+                t = f.read()
+            if fn == "Cargo.toml.in":
+                fn = "Cargo.toml"
+                t = t.replace("@REPO@", vunit.REPO)
+            p = os.path.join(RSRC, rel, fn)
+            if not os.path.exists(p) or open(p).read() != t:   # keep mtimes: no needless rebuild
+                with open(p, "w") as f:
+                    f.write(t)
+    os.makedirs(os.path.join(RSRC, ".cargo"), exist_ok=True)
+    cfg = os.path.join(RSRC, ".cargo", "config.toml")
+    if not os.path.exists(cfg):
+        with open(cfg, "w") as f:
+            f.write("[net]\noffline = true\n")
+    with open(os.path.join(vunit.REPO, "Cargo.lock")) as f:
+        lock = f.read()
+    lp = os.path.join(RSRC, "Cargo.lock")
+    # cargo adds the verif-replay package to its copy of the lock file: refresh only when the repository's changed
+    stamp = os.path.join(RSRC, ".repo-lock")
+    if not os.path.exists(lp) or not os.path.exists(stamp) or open(stamp).read() != lock:
+        with open(lp, "w") as f:
+            f.write(lock)
+        with open(stamp, "w") as f:
+            f.write(lock)
+    return RSRC
 
 
 def build():
-    if not os.path.exists(os.path.join(RCRATE, "Cargo.toml")):
+    """Build verif-replay against vunit.REPO; returns the path of the executable, None if there is no replay
+    crate, raises RuntimeError if it does not build (callers treat that as 'no witness')."""
+    if not os.path.exists(os.path.join(RCRATE, "Cargo.toml.in")):
         return None
-    env = dict(os.environ, CARGO_TARGET_DIR=RTARGET, CARGO_NET_OFFLINE="true")
-    lock = os.path.join(RCRATE, "Cargo.lock")
-    if not os.path.exists(lock):
-        import shutil
-        shutil.copy(os.path.join(vunit.REPO, "Cargo.lock"), lock)
-    p = subprocess.run(["cargo", "build", "--offline", "--release"], cwd=RCRATE, env=env, capture_output=True, text=True)
-    if p.returncode != 0:
-        raise RuntimeError("replay crate does not build: " + p.stderr[-1500:])
-    return os.path.join(RTARGET, "release", "verif-replay")
+    if _built.get(RSRC):
+        return _built[RSRC]
+    import fcntl
+    import shutil
+    os.makedirs(os.path.dirname(RSRC), exist_ok=True)
+    lock = open(os.path.join(os.path.dirname(RSRC), ".replay.lock"), "w")
+    fcntl.flock(lock, fcntl.LOCK_EX)
+    try:
+        prepare()
+        # scratch repository: start from the dependency artifacts already built for /repo (registry crates are
+        # identical; only the path crates revm-primitives / revm-interpreter and verif-replay are rebuilt)
+        if RTARGET != MAIN_RTARGET and not os.path.isdir(RTARGET) and os.path.isdir(os.path.join(MAIN_RTARGET, "release")):
+            try:
+                shutil.copytree(MAIN_RTARGET, RTARGET, symlinks=True)   # copy2: mtimes preserved
+            except Exception:
+                shutil.rmtree(RTARGET, ignore_errors=True)
+        env = dict(os.environ, CARGO_TARGET_DIR=RTARGET, CARGO_NET_OFFLINE="true")
+        env.pop("RUSTFLAGS", None)
+        p = subprocess.run(["cargo", "build", "--offline", "--release", "-j", JOBS], cwd=RSRC, env=env,
+                           capture_output=True, text=True)
+        if p.returncode != 0:
+            raise RuntimeError("replay crate does not build: " + p.stderr[-3000:])
+    finally:
+        fcntl.flock(lock, fcntl.LOCK_UN)
+        lock.close()
+    exe = os.path.join(RTARGET, "release", "verif-replay")
+    _built[RSRC] = exe
+    return exe
 
 
 def search_witness(pid, v, seed):
     """Run the seeded boundary/random search of the replay crate for the failed obligation.
     Returns a dict (input + observed vs expected) or None."""
     fn = v["fn"].split("::")[-1]
-    if v.get("kani") and v["kani"].get("witness"):
-        return v["kani"]["witness"]
+    if v.get("kani"):
+        return v["kani"].get("witness")
+    import time
+    t0 = time.time()
     try:
         exe = build()
-    except RuntimeError:
+    except RuntimeError as e:
+        v["witness_search"] = {"error": str(e)[-600:]}
         return None
     if not exe:
         return None
-    p = subprocess.run([exe, "search", fn, str(seed)], capture_output=True, text=True, timeout=300)
-    for ln in p.stdout.split("\n"):
-        if ln.startswith("WITNESS "):
-            return json.loads(ln[8:])
-    return None
+    t1 = time.time()
+    w = None
+    try:
+        p = subprocess.run([exe, "search", fn, str(seed)], capture_output=True, text=True, timeout=300)
+        for ln in p.stdout.split("\n"):
+            if ln.startswith("WITNESS "):
+                w = json.loads(ln[8:])
+                break
+        note = p.stderr.strip().split("\n")[-3:]
+    except subprocess.TimeoutExpired:
+        note = ["search timed out"]
+    v["witness_search"] = {"cmd": f"{exe} search {fn} {seed}", "build_s": round(t1 - t0, 1), "search_s": round(time.time() - t1, 1), "log": note}
+    return w
 
 
 def write_replay(pid, v):
@@ -57,6 +137,7 @@ def write_replay(pid, v):
         "function": v["fn"],
         "verifier_output": [{"message": x["message"], "spans": x.get("spans"), "rendered": x.get("rendered")} for x in v["diags"]],
         "witness": v.get("witness"),
+        "witness_search": v.get("witness_search"),
         "replay": "./check replay " + os.path.relpath(path, VERIF),
         "note": "witness (if any) was found by running the REAL function in the replay crate; without one the violation is the failed obligation itself",
     }
@@ -76,7 +157,14 @@ def replay_file(path):
         print("no concrete witness recorded (no-failing-input-found); the failed obligation above is the violation")
         return 1
     print("witness:", json.dumps(w))
-    exe = build()
+    if w.get("kind") == "kani-concrete-playback" or "function" not in w:
+        print("witness comes from Kani's concrete playback (unit test text above); it is not re-executed by the replay crate")
+        return 1
+    try:
+        exe = build()
+    except RuntimeError as e:
+        print(e)
+        return 1
     if not exe:
         return 1
     p = subprocess.run([exe, "replay", json.dumps(w)], capture_output=True, text=True)
